@@ -23,7 +23,8 @@ RULE = ("part 'gfa1': generated GFA1 graphs (segments with LN and/or sequence, l
         "named dovetail edge by one with another alignment and require the live conversion to equal the conversion of a "
         "fresh parse of the current text; header tags other than VN are carried both ways. Part 'gfa1-only-ops': such GFA1 graphs with = X N S H in "
         "the overlap of one or all edges at vlevel 0..3: whole-graph and per-line conversion raise a "
-        "gfapy.Error or write valid GFA2 without those operations. non-trivial = >= 1 edge with an I or D in "
+        "gfapy.Error or write valid GFA2 without those operations. Part 'cli': bin/gfapy-convert as a subprocess on files "
+        "holding such GFA1 / GFA2 graphs, its output judged like to_gfa2_s() / to_gfa1_s(). non-trivial = >= 1 edge with an I or D in "
         "its CIGAR and >= 2 distinct orientation pairs (gfa1-only-ops: >= 1 affected edge); distinct by hash")
 ASSUMPTIONS = [
     "GFA1 sources: every segment has a length, every overlap is specified with GFA2-legal operations (M I D P)",
@@ -667,8 +668,59 @@ def st_gfa2(draw):
             "edit": r.randint(1, 50) if gen.chance(r, 0.6) else None}
 
 
+def prop_cli(case):
+    """bin/gfapy-convert on a file: the printed document is judged like the result of to_gfa2_s() / to_gfa1_s()
+    (valid at vlevel 3, same graph as the model derives); a graph holding records without counterpart may
+    instead be refused (exit status 1, message, no traceback)."""
+    from .. import cli
+    doc = case["doc"]
+    lines = gen.doc_lines(doc)
+    v = doc["version"]
+    try:
+        rc, out, err = cli.run_script("gfapy-convert", ["x.gfa"], {"x.gfa": "\n".join(lines) + "\n"})
+    except Exception as e:
+        if type(e).__name__ == "TimeoutExpired":
+            raise Violation("cli-hang", "gfapy-convert did not terminate on\n%s" % "\n".join(lines))
+        raise
+    if "Traceback" in err or rc not in (0, 1):
+        raise Violation("cli-foreign", "gfapy-convert: exit status %s\n%s\n-- input --\n%s" % (rc, err[-1200:], "\n".join(lines)), (err.strip().split("\n") or [""])[-1].split(":")[0][:40])
+    text = "\n".join(x for x in out.split("\n") if x)
+    if v == "gfa1":
+        if rc != 0:
+            raise Violation("cli-refused", "gfapy-convert refuses a convertible GFA1 graph: %s\n%s" % (err[-400:], "\n".join(lines)))
+        recs = parse_out(text, "gfa2", "gfapy-convert output")
+        compare_gfa2(M.ModelDoc.from_doc(doc), doc["slen"], recs, text, "gfapy-convert")
+        return {"nt": any(l[0] in "LC" for l in doc["lines"]), "cli": "gfa1"}
+    extras = any(l[0] in "GFUX" for l in doc["lines"]) or case.get("internal")
+    if rc != 0:
+        if not extras:
+            raise Violation("cli-refused", "gfapy-convert refuses a convertible GFA2 graph: %s\n%s" % (err[-400:], "\n".join(lines)))
+        return {"nt": True, "cli": "gfa2-refused"}
+    recs = parse_out(text, "gfa1", "gfapy-convert output")
+    got = canon_gfa1_for_roundtrip([x for x in recs if x.rt != "#"])
+    want = Counter(_tuplify(e) for e in case["expect"])
+    if got != want:
+        raise Violation("cli-gfa2-to-gfa1", "gfapy-convert result differs from the model: %s\n-- source --\n%s\n-- result --\n%s" % (
+            G.counter_diff(want, got), "\n".join(lines), text))
+    return {"nt": True, "cli": "gfa2"}
+
+
+@st.composite
+def st_cli(draw):
+    if draw(st.booleans()):
+        case = draw(st_gfa1())
+        case["doc"]["version"] = "gfa1"
+        return case
+    case = draw(st_gfa2())
+    case["doc"]["version"] = "gfa2"
+    case.pop("internal", None)
+    return case
+
+
 def parts(tier):
     q = tier == "quick"
     return [Part("gfa1", prop_gfa1, strategy=st_gfa1(), n=300 if q else 1500, quick_shards=2),
             Part("gfa2", prop_gfa2, strategy=st_gfa2(), n=300 if q else 1500, quick_shards=2),
-            Part("gfa1-only-ops", prop_gfa1_only_ops, strategy=st_gfa1_only_ops(), n=150 if q else 800)]
+            Part("gfa1-only-ops", prop_gfa1_only_ops, strategy=st_gfa1_only_ops(), n=150 if q else 800),
+            Part("cli", prop_cli, strategy=st_cli(), n=40 if q else 120, quick_shards=3,
+                 note="bin/gfapy-convert as a subprocess")]
